@@ -228,8 +228,15 @@ pub fn record_one(b: &mut Batch, r: &mut StdRng, p: &Profile, modes: &[RealMode]
     let (spec, atom_of_char) = match atomise(modes, &chars) {
         Ok(x) => x,
         Err(e) => {
-            eprintln!("HARNESS-ERROR atomise: {e}");
-            crate::HARNESS_ERRORS.fetch_add(1, std::sync::atomic::Ordering::SeqCst);
+            // The only way atomise fails on a supported configuration is a one-class pattern whose
+            // tokens are not single whole characters (or that does not build): that is behaviour
+            // of the code, not of the harness. It is logged as an event no action of the
+            // specification explains, so the trace is rejected and reported.
+            let first_event = b.events.len() + 1;
+            b.events.push(json!({"op": "reset", "trace": trace_id}));
+            b.events.push(json!({"op": "leaf-measurement-failed", "what": e}));
+            b.meta.push(json!({"trace": trace_id, "first_event": first_event, "last_event": b.events.len(),
+                "modes": describe_modes(modes), "inputs": texts}));
             return;
         }
     };
